@@ -86,3 +86,10 @@ pub unsafe fn naive_memchr_raw(needle: u8, start: *const u8, end: *const u8) -> 
     while p < end { if *p == needle { return Some(p); } p = p.add(1); }
     None
 }
+
+/// `ring` kind: HashRing's two private hash functions become table lookups, so that virtual-node positions
+/// are concrete per instance (the sort is then concrete) while the key's position is an arbitrary u64.
+pub static mut RING_VN: [[u64; 2]; 5] = [[0; 2]; 5];
+pub static mut RING_KEY: u64 = 0;
+pub fn ring_vnode(node: redis_sim::replication::lattice::ReplicaId, idx: u32) -> u64 { unsafe { RING_VN[(node.0 as usize) % 5][(idx as usize) & 1] } }
+pub fn ring_key(_k: &str) -> u64 { unsafe { RING_KEY } }
